@@ -247,11 +247,67 @@ def _model_shard(items):
     return res
 
 
+def _bounds_shard(items):
+    """RANDBETWEEN(bottom, top) drawn repeatedly: every value in the allowed set of
+    RandBetween.tla (or #NUM! when it is empty), and not always the same one."""
+    f = impl.F()
+    import numpy as np
+    from fractions import Fraction
+    out = []
+    for o in items:
+        b, t = Fraction(*o['b']), Fraction(*o['t'])
+
+        def txt(q):
+            s = repr(float(q)) if q.denominator != 1 else str(q.numerator)
+            return s
+        text = '=RANDBETWEEN(%s,%s)' % (txt(b), txt(t))
+        try:
+            fn_ = f.Parser().ast(text)[1].compile()
+            vals = []
+            for k in range(40):
+                np.random.seed(1000 + k)
+                vals.append(V.alpha(fn_()))
+        except BaseException as ex:  # noqa
+            if isinstance(ex, (KeyboardInterrupt, SystemExit)):
+                raise
+            out.append((text, o['allowed'], 'raises %s' % type(ex).__name__))
+            continue
+        allowed = set(o['allowed'])
+        bad = None
+        if not allowed:
+            if any(v != V.E('NUM') for v in vals):
+                bad = 'no integer lies between the bounds, expected #NUM!, got %s' % V.show(
+                    [v for v in vals if v != V.E('NUM')][0])
+        else:
+            xs = [v['x'] if v.get('k') == 'f' else None for v in vals]
+            wrong = [v for v, x in zip(vals, xs) if x is None or x != int(x) or int(x) not in allowed]
+            if wrong:
+                bad = 'value %s is not an integer within the bounds (allowed %s)' % (
+                    V.show(wrong[0]), sorted(allowed))
+            elif len(allowed) > 1 and len(set(xs)) == 1:
+                bad = '40 draws gave the same value %s' % xs[0]
+        out.append((text, o['allowed'], bad))
+    return out
+
+
 def main():
     rep = Report(PID)
     thorough = tier() == 'thorough'
     r = run_tlc('Volatile', 'Volatile.cfg')
     rep.add_tlc(r, 'Volatile: every way of obtaining an object x uses; NeverFrozen OncePerEpoch')
+    # ---- RANDBETWEEN: an integer within its bounds ----------------------------------
+    from ..tlc import parse_obl
+    rb = run_tlc('RandBetween', 'RandBetween.cfg')
+    rep.add_tlc(rb, 'RandBetween: all pairs of bounds x slots; InBounds NumIffEmpty Ends')
+    for part in pmap(_bounds_shard, shards(parse_obl(rb['out']), NCPU), chunk=1):
+        for text, allowed, bad in part:
+            rep.count()
+            rep.distinct(('rb', text))
+            if bad:
+                rep.violation({'kind': 'randbetween-bounds', 'text': text},
+                              {'formula': text, 'allowed': allowed, 'problem': bad,
+                               'how': 'Parser().ast(f)[1].compile() called 40 times under '
+                                      'different numpy seeds'})
     rnd = random.Random(seed() * 11 + 1)
     # ---- formulas -----------------------------------------------------------
     items = []
